@@ -697,15 +697,20 @@ func (r *runner) apply(ev string) bool {
 				return r.recreate(p, f[1], false)
 			}
 		}
-	case "createrb":
-		// the application starts to create the database again and rolls its first transaction back (synchronous=OFF:
-		// the journal header is valid at once) - nothing may change, and late joiners must still be served
+	case "createrb", "createrb0":
+		// the application starts to create the database again and rolls its first transaction back (createrb:
+		// synchronous=OFF, the journal header is valid at once; createrb0: the default, the header's magic is still zero
+		// when the journal goes) - nothing may change, and late joiners must still be served
 		if p := r.c.Primary(); p != nil {
 			if d := p.DB(f[1]); d != nil && d.PageN() == 0 {
 				before := d.Pos()
 				conn := pager.NewConn(p.M, f[1], r.nextOwner(), r.cfg.PageSize)
 				conn.Det = true
-				res := conn.RunRTx(pager.RTx{Create: true, NewSize: 2, SyncMode: 2, Final: "DELETE", Outcome: "rollback"}, nil)
+				syncMode := 2
+				if f[0] == "createrb0" {
+					syncMode = 0
+				}
+				res := conn.RunRTx(pager.RTx{Create: true, NewSize: 2, SyncMode: syncMode, Final: "DELETE", Outcome: "rollback"}, nil)
 				conn.Close()
 				if r.recreateRolledBack == nil {
 					r.recreateRolledBack = map[string]bool{}
@@ -1162,6 +1167,9 @@ func (r *runner) enabled() []string {
 			}
 			if has("createrb") && p.DB(db) != nil && db == "a" {
 				out = append(out, "createrb:"+db)
+			}
+			if has("createrb0") && p.DB(db) != nil && db == "a" {
+				out = append(out, "createrb0:"+db)
 			}
 			continue
 		}
